@@ -145,6 +145,12 @@ def state_fn(cfg, h, m, ref):
 state_fn.seq_depth = 2
 
 
+def state_fn_frac(cfg, h, m, ref):
+    """Only the fractional exponent (the integer exponents need ~4^k elements on the very deep strips)."""
+    e, a = grade_check(cfg, h, 1.5)
+    return [((t, 1.5), d) for t, d in e], {'gradings': 1, 'elements_added': max(a, 0), 'undecided_too_large': 1 if a < 0 else 0, 'grading_sequences': 0}
+
+
 def report(ctx):
     def on_violation(cfgname, hist, v):
         if v[0] == 'refine-raised':
@@ -178,7 +184,7 @@ def run(ctx):
     for cfgname in ('UnitSquare', 'LShapeDriver', 'UnitInterval'):
         for kk in ((8, ) if ctx.tier == 'quick' else (8, 11, 14)):
             root = meshmc.deep_histories(cfgname, kk)['t0']
-            meshmc.explore(ctx, cfgname, 0 if ctx.tier == 'quick' else 1, state_fn, None, onv, stats=st, hlimit=HLIMIT, root=root,
+            meshmc.explore(ctx, cfgname, 0 if (ctx.tier == 'quick' or kk > 8) else 1, state_fn if kk == 8 else state_fn_frac, None, onv, stats=st, hlimit=HLIMIT, root=root,
                            label='{}+deep:t0x{}'.format(cfgname, kk))
     # supplementary random histories (seeded; not part of the exhaustive claim)
     nrw = 0
